@@ -1,0 +1,19 @@
+//go:build verif
+
+package icmp
+
+import "github.com/postalsys/muti-metroo/internal/crypto"
+
+// VerifSessionKeys returns the key bytes of every session key this handler
+// currently holds.
+func (h *Handler) VerifSessionKeys() [][crypto.KeySize]byte {
+	h.mu.RLock()
+	defer h.mu.RUnlock()
+	var out [][crypto.KeySize]byte
+	for _, s := range h.sessions {
+		if k := s.GetSessionKey(); k != nil {
+			out = append(out, k.VerifKeyBytes())
+		}
+	}
+	return out
+}
